@@ -213,6 +213,37 @@ def run_case(case):
                 pass
 
     P.Worker.extract_single = es
+    # a worker PROCESS that dies (the kernel's OOM killer, a crash in a codec library) while writing the last member of its folder:
+    # in the child, the output object handed to Worker.decompress writes half of its first piece and then kills the process
+    orig_dec = P.Worker.decompress
+    if case.get("suicide"):
+        import multiprocessing as _mp
+        import signal as _sig
+        counts = {}
+
+        def dec(self, fp, folder, fq, *a, **kw):
+            if _mp.current_process().name != "MainProcess":
+                try:
+                    fi = self.header.main_streams.unpackinfo.folders.index(folder) + 1
+                except ValueError:
+                    fi = 0
+                counts[fi] = counts.get(fi, 0) + 1
+                if fi in case["suicide"] and counts[fi] == len(sizes[fi - 1]):
+                    class Dying:
+                        def __init__(self, inner):
+                            self.inner = inner
+
+                        def write(self, s):
+                            self.inner.write(s[:max(1, len(s) // 2)])
+                            self.inner.flush()
+                            os.kill(os.getpid(), _sig.SIGKILL)
+
+                        def __getattr__(self, n):
+                            return getattr(self.inner, n)
+                    fq = Dying(fq)
+            return orig_dec(self, fp, folder, fq, *a, **kw)
+
+        P.Worker.decompress = dec
     o_mkdir = os.mkdir
     if case.get("mkdir_rendezvous"):
         # two workers creating the same directory meet inside os.mkdir: the first to arrive waits a moment for a second one
@@ -244,7 +275,7 @@ def run_case(case):
     # stream-less members (directories, empty files) of a full extraction are processed and reported too; ids as SlowCallback._rec assigns them
     streamless = [[0, 1 + sum(map(ord, nm)) % 1000] for nm in (["dir-between", "zero-ü"] if len(sizes) >= 2 and not case.get("targets") else [])]
     trace = [{"e": "arch", "sizes": real_sizes, "damaged": sorted(case.get("damaged", [])), "mode": mode, "delivered": [list(k) for k in want],
-              "streamless": streamless, "failsink": sorted(case.get("failsink", []))}]
+              "streamless": streamless, "failsink": sorted(set(case.get("failsink", [])) | set(case.get("suicide", [])))}]
     cwd0 = os.getcwd()
     try:
         src = path if mode in ("thread", "process", "two") else io.BytesIO(raw)
@@ -348,6 +379,7 @@ def run_case(case):
         return {"trace": trace, "extra": extra}
     finally:
         P.Worker.extract_single = orig_es
+        P.Worker.decompress = orig_dec
         os.chdir(cwd0)
         os.mkdir = o_mkdir
         P.get_memory_limit = o_limit
